@@ -24,5 +24,10 @@ CLAIMS.update({
     'C19': {'text': 'Exception transparency as an effect contract over every try statement of the library: no handler can catch an exception of the caller\'s stream or callbacks, no stream I/O happens inside a guarded block, API functions only dispose in finally; plus the frame of C11.',
             'note': 'The C emitter/parser (except-0 handlers in Cython) are invisible to the effect checker.', 'technique': _T, 'design_ref': 'DESIGN.md 5/C19'},
 })
+CLAIMS.update({
+    'C13': {'text': 'Contracts on every Composer function (alias = the anchored node itself, define-before-use, duplicate anchors rejected, the node registered under its anchor before its children are composed, anchors reset per document) and on BaseConstructor.construct_object / construct_document (node->object cache returns the same object on every visit, recursion guard, deep flag restored, caches reset per document, all generators exhausted) are discharged for every event sequence of the event grammar and every cache state.',
+            'note': 'The event source (parser) is abstracted by a ghost event sequence assumed to be grammatical; registered constructors are assumed to follow the constructor protocol; two-phase (yield) constructors and the C composer are not under contract here.',
+            'technique': _T, 'design_ref': 'DESIGN.md 5/C13'},
+})
 for _p in CLAIMS:
     NOT_APPLICABLE.pop(_p, None)
